@@ -524,6 +524,9 @@ class Interp:
                             return None
                         out += r
                     return out
+                if isinstance(a, BoundMethod) and isinstance(b, BoundMethod):
+                    # python: bound methods are equal (and hash alike) iff they are the same function bound to the same object
+                    return [] if (a.obj is b.obj and a.func is b.func) else None
                 if isinstance(a, by_identity) or isinstance(b, by_identity) or a is None or b is None \
                         or (callable(a) and getattr(a, '_pyvc_model', False)) or (callable(b) and getattr(b, '_pyvc_model', False)):
                     return [] if a is b else None
